@@ -19,6 +19,7 @@ type Frame struct {
 	fc     *FuncContract // contract of fn when fn is the function under verification or inlined with loops
 	loops  map[*ssa.BasicBlock]*loopRT
 	visits map[*ssa.BasicBlock]int
+	lastDpos, symIters map[*ssa.BasicBlock]int // unrolled loops: decisions made between two visits of a header
 	defers []func()
 	isRoot bool
 	oldEnv map[ssa.Value]Value
@@ -188,6 +189,26 @@ func (s *State) run(fn *ssa.Function, args []Value, isRoot bool, fc *FuncContrac
 		if fr.visits[b] > 80 {
 			unsup("loop at block %d of %s needs an invariant (iteration cap reached)", b.Index, fn)
 		}
+		if fr.loops[b] == nil && fr.visits[b] > 1 {
+			// a loop without a contract is unrolled; that ends only when the iteration count is decided by constants.
+			// Iterations whose continuation was a symbolic decision are counted separately and capped low: unrolling
+			// them further only multiplies paths and obligations of a proof that is lost anyway.
+			if fr.lastDpos == nil {
+				fr.lastDpos, fr.symIters = map[*ssa.BasicBlock]int{}, map[*ssa.BasicBlock]int{}
+			}
+			if d, ok := fr.lastDpos[b]; ok && s.dpos > d {
+				fr.symIters[b]++
+				if fr.symIters[b] > symbolicUnrollCap {
+					unsup("loop at block %d of %s needs an invariant (iteration cap reached)", b.Index, fn)
+				}
+			}
+			fr.lastDpos[b] = s.dpos
+		} else if fr.loops[b] == nil {
+			if fr.lastDpos == nil {
+				fr.lastDpos, fr.symIters = map[*ssa.BasicBlock]int{}, map[*ssa.BasicBlock]int{}
+			}
+			fr.lastDpos[b] = s.dpos
+		}
 		if lrt := fr.loops[b]; lrt != nil {
 			fr.loopHeader(b, prev, lrt)
 		} else if fr.mergedPhis != nil {
@@ -289,6 +310,9 @@ func loopHeaders(fn *ssa.Function) []*ssa.BasicBlock {
 	}
 	return hs
 }
+
+// symbolicUnrollCap bounds the unrolled iterations of a contract-less loop during which a symbolic decision was made.
+const symbolicUnrollCap = 24
 
 func (fr *Frame) bindValues(lc *LoopContract, b *ssa.BasicBlock) []Value {
 	var out []Value
